@@ -276,6 +276,23 @@ pub fn check(tape: &[u32]) -> CheckResult {
         Err(e) => return Err(Failure::new("load-error", format!("well-formed file failed to load: {}", e)).with(json!({"model": summarize(&s), "plan": format!("{:?}", plan)}))),
     };
     compare_structure(&s, &f).map_err(|f| f.with(json!({"model": summarize(&s), "plan": format!("{:?}", plan), "file_hex_prefix": hex(&enc.bytes[..enc.bytes.len().min(256)])})))?;
+    // every eighth case: a sibling sprite (same colours and structure, every name different) is loaded while this
+    // one is still alive; each must report its own data
+    if tape.len() % 8 == 3 && enc.bytes.len() < 200_000 {
+        let sib = super::c16::rename(&s);
+        let eb = encode(&sib, &plan);
+        if let Ok(fb) = AsepriteFile::read(&eb.bytes[..]) {
+            compare_structure(&sib, &fb).map_err(|mut e| {
+                e.signature = format!("cross-sprite-state:{}", e.signature);
+                e.msg = format!("a sibling sprite (same colours, other names) loaded while the first is alive reports wrong data: {}", e.msg);
+                e.with(json!({"model": summarize(&sib)}))
+            })?;
+            compare_structure(&s, &f).map_err(|mut e| {
+                e.signature = format!("cross-sprite-state:{}", e.signature);
+                e
+            })?;
+        }
+    }
     // non-triviality and labels
     let entities = s.layers.len() >= 2 || s.tags.as_ref().map_or(false, |t| !t.is_empty()) || !s.slices.is_empty() || s.palette.is_some() || s.legacy.is_some() || !s.ext_files.is_empty() || !s.tilesets.is_empty();
     let mut labels = vec![];
